@@ -5,7 +5,11 @@ VERIF = os.path.dirname(os.path.dirname(os.path.abspath(__file__)))
 SESS = ("Explicit TLA+ specification of the manual-level abstract machine (BasicMachine and the modules it extends). "
         "TLC model-checks the specification's own invariants / action properties over a bounded space and enumerates "
         "behaviours as sessions; each session is executed by the real interpreter and TLC (TraceMachine) decides whether the "
-        "recorded trace (every response and a state probe after every command) is a behaviour of the specification.")
+        "recorded trace (every response and a state probe after every command) is a behaviour of the specification. "
+        "A second, implementation-level TLA+ module (BasicVM: code generator, linker, program memory, stack machine, "
+        "transcribed from the source) is model-checked by TLC to refine the abstract machine on bounded spaces and is bound "
+        "to the code opcode by opcode and execute(1) by execute(1); differences there are reported as drift of that model, "
+        "never as violations.")
 NOTE_SESS = ("Exhaustive only within the stated constants of the .cfg files; beyond them seeded random sessions. Trusted: the "
              "harness renderer AST->text, the probe projection, TLC. Floating-point content is specified only on short "
              "dyadic rationals (types everywhere); sessions leaving that domain are discarded and counted.")
